@@ -1,4 +1,4 @@
 SPECIFICATION TraceSpec
-INVARIANTS HarnessStoreRan C20_MergeKeepsAll C20_MergeKeepsAllKnown C20_TicketPerBurn C20_TicketPerBurnKnown C20_BurnTotals C20_BurnTotalsKnown C20_MintTotals
+INVARIANTS HarnessStoreRan C20_MergeKeepsAll C20_MergeKeepsAllKnown C20_TicketPerBurn C20_TicketPerBurnKnown C20_BurnTotals C20_BurnTotalsKnown C20_MintTotals C20_MintTotalsKnown
 POSTCONDITION Accepted
 CHECK_DEADLOCK FALSE
